@@ -457,13 +457,19 @@ def gen_api_status():
                 raise ExtractError("status arm `%s => %s` not understood" % (st, rhs[:60]))
             arms.append((st, "Err", mm.group(1)))
     # what an unknown number becomes: a `None` / `_` arm, or the `else` of a `let Some(..) = .. else`, or a combinator default
-    none = (re.search(r"\b(?:None|_)\s*=>\s*(?:return\s+)?Err\(\s*(?:\w+::)*(\w+)\s*\)", aw)
+    none = (re.search(r"\b(?:None|_)\s*=>\s*(?:return\s+)?(?:Err\(\s*)?(?:\w+::)+(\w+)\s*\)?\s*,", aw)
             or re.search(r"from_repr\([^;{]*\)\s*else\s*\{\s*return\s+Err\(\s*(?:\w+::)*(\w+)\s*\)", aw)
             or re.search(r"from_repr\([^;]*?\)\s*\.\s*(?:map_or|ok_or)\(\s*Err\(\s*(?:\w+::)*(\w+)\s*\)", aw)
             or re.search(r"from_repr\([^;]*?\)\s*\.\s*ok_or\(\s*(?:\w+::)*(\w+)\s*\)", aw))
     if not arms or not none:
         raise ExtractError("the status-to-error match in api/src/write.rs was not recognised")
     rows = [(st, "Ok" if rhs.startswith("Ok") else err) for st, rhs, err in arms]
+    # the order of the arms does not matter: list them in the order of the status numbers
+    try:
+        order = [v for v, _ in parse_enum(strip_tests(read("core/src/write.rs")), "WriteResult", [])]
+        rows.sort(key=lambda r: order.index(r[0]) if r[0] in order else len(order))
+    except ExtractError:
+        pass
     lines = ["-- REGENERATED by /verif/extract/extract.py from api/src/write.rs (status -> api error); do not edit",
              "namespace SfVerif.Gen",
              "/-- (provider status variant, api result: `Ok` or the `Error` variant) in source order -/",
@@ -1327,17 +1333,34 @@ def gen_deint():
     (integrality, lower bound, upper bound, with the comparison operators as written), the cast, and the
     list of integer types the macro is instantiated for."""
     src = normalise_src(strip_comments(strip_tests(read("api/src/read.rs"))))
+    # the macro takes one type or a comma-separated list of them
     m = re.search(r"macro_rules!\s*impl_deserialize_for_int\s*\{\s*\(\s*\$ty\s*:\s*ty\s*\)\s*=>\s*\{", src)
+    listed = False
+    if not m:
+        m = re.search(r"macro_rules!\s*impl_deserialize_for_int\s*\{\s*\(\s*\$\(\s*\$ty\s*:\s*ty\s*\)\s*,\s*\*\s*(?:\$\(\s*,\s*\)\s*\?)?\s*\)\s*=>\s*\{\s*\$\(", src)
+        listed = True
     if not m:
         raise ExtractError("macro impl_deserialize_for_int not found")
     depth, i = 1, m.end()
     while depth and i < len(src):
-        depth += {"{": 1, "}": -1}.get(src[i], 0)
+        depth += {"{": 1, "}": -1, "(": 1 if listed else 0, ")": -1 if listed else 0}.get(src[i], 0)
         i += 1
     body = src[m.end():i - 1].replace("$ty", "TY")
-    g = tmatch(body, "impl Deserialize for TY { fn deserialize(value: &Value) -> Result<Self, Error> { "
-                     "value.as_number().and_then(|n| { if n.trunc() == n && n HOLEX1 <TY>::MIN as f64 && n HOLEX2 <TY>::MAX as f64 "
-                     "{ Some(n as TY) } else { None } }).ok_or(Error::InvalidType) } }")
+    head = "impl Deserialize for TY { fn deserialize(value: &Value) -> Result<Self, Error> { "
+    # the same decision written three ways (and_then + if; filter + map; let-else + named conditions)
+    templates = [
+        head + "value.as_number().and_then(|n| { if n.trunc() == n && n HOLEX1 <TY>::MIN as f64 && n HOLEX2 <TY>::MAX as f64 "
+               "{ Some(n as TY) } else { None } }).ok_or(Error::InvalidType) } }",
+        head + "value.as_number().filter(|&n| n.trunc() == n && n HOLEX1 <TY>::MIN as f64 && n HOLEX2 <TY>::MAX as f64)"
+               ".map(|n| n as TY).ok_or(Error::InvalidType) } }",
+        head + "let Some(n) = value.as_number() else { return Err(Error::InvalidType); }; let a = n.trunc() == n; "
+               "let b = n HOLEX1 <TY>::MIN as f64 && n HOLEX2 <TY>::MAX as f64; if a && b { Ok(n as TY) } else { Err(Error::InvalidType) } } }",
+    ]
+    g = None
+    for tpl in templates:
+        g = tmatch(body, tpl)
+        if g:
+            break
     if not g:
         raise ExtractError("impl_deserialize_for_int changed shape: %s" % canon(body)[:300])
     lo_op, hi_op = g[0].strip(), g[1].strip()
@@ -1345,7 +1368,9 @@ def gen_deint():
     hi_rel = {"<=": "z ≤ fhi", "<": "z < fhi"}.get(hi_op)
     if lo_rel is None or hi_rel is None:
         raise ExtractError("impl_deserialize_for_int: unsupported bound comparison `%s` / `%s`" % (lo_op, hi_op))
-    tys = re.findall(r"impl_deserialize_for_int!\s*\(\s*(\w+)\s*\)\s*;", src)
+    tys = []
+    for call in re.findall(r"impl_deserialize_for_int!\s*\(([^)]*)\)\s*;", src):
+        tys += [t.strip() for t in call.split(",") if t.strip()]
     bounds = {"i8": (-2**7, 2**7 - 1), "i16": (-2**15, 2**15 - 1), "i32": (-2**31, 2**31 - 1), "i64": (-2**63, 2**63 - 1),
               "u8": (0, 2**8 - 1), "u16": (0, 2**16 - 1), "u32": (0, 2**32 - 1), "u64": (0, 2**64 - 1)}
     rows = []
